@@ -413,6 +413,15 @@ class _Tunnel(Interface):
         self, disconnect_request: DisconnectRequest
     ) -> None:
         """Handle incoming disconnect request."""
+        if self.communication_channel is None:
+            # no tunnel is established (yet) - eg. a ConnectRequest is still pending.
+            # There is nothing to tear down and a reconnect would run concurrently
+            # to the connection attempt in progress.
+            logger.debug(
+                "Ignoring DisconnectRequest received without an established tunnel: %s",
+                disconnect_request,
+            )
+            return
         logger.warning("Received DisconnectRequest from tunnelling server.")
         # We should not receive DisconnectRequest for other communication_channels
         # If we do we close our communication_channel before reconnection.
